@@ -20,15 +20,28 @@ func init() {
 		Rule: "Part A: every lambda-list shape (required x &optional with/without default x &rest x &key with/without default x &aux) " +
 			"x every argument vector of the bound, through defun+call, funcall of a lambda, apply of a lambda and apply of the named function; " +
 			"the body is (tr 'in) (list <all parameters>); the observed list (or error, and whether the body had started) must be in the set " +
-			"the reference binder (CLHS 3.4.1) allows. Part B: every function of every package x every argument count 0..max+2, arguments " +
-			"chosen by documented type; error class vs the documented range. A case is non-trivial when the lambda list has a non-required " +
+			"the reference binder (CLHS 3.4.1) allows. Sixth round, same oracle: further call routes (apply with every split into spread arguments " +
+			"and a final list incl. the empty one, multiple-value-call, mapcar/mapc/every over one-element lists, reduce with and without :initial-value, " +
+			"a sort predicate, funcall of #'name / (function name) / (symbol-function 'name), a closure returned by another function, a method of a " +
+			"defgeneric, a flavors method called by send, a defmacro (argument forms unevaluated), a recursive self-call with another argument count " +
+			"in both directions); every route again with every parameter name being a variable around the call site / around the definition site / a " +
+			"global of the current package; further lambda-list dimensions (default FORMS that log and read all earlier parameters - evaluated once, only " +
+			"when absent, left to right -, &allow-other-keys and :allow-other-keys t/nil, keywords and declarations spelled in lower / UPPER / Mixed " +
+			"case, supplied-p variables and ((:keyword var) default) specs - those two are refused by slip's defun and then only counted). " +
+			"Part B: every function of every package x every argument count 0..max+2, arguments " +
+			"chosen by documented type; error class vs the documented range; and every documented keyword of every built-in alone (must not be " +
+			"rejected as a keyword or for the argument count), a documented keyword without value and an undocumented pair (error, or the value of " +
+			"the call without that tail). A case is non-trivial when the lambda list has a non-required " +
 			"parameter or the argument count differs from the number of required parameters (A), or when the count lies outside the " +
 			"documented range or the function documents &optional/&rest/&key (B)",
 		Assumptions: []string{
-			"the statement is silent on: unknown keys (error or ignored, slip documents :allow-other-keys t), duplicate keys (leftmost or rightmost), whether &rest also holds the keyword arguments (CL) or stops before the first declared keyword (slip) - each is accepted",
-			"default values in the enumerated lambda lists are literals; default FORMS (a call, a quoted symbol) are a separate 24-case family with its own signatures",
+			"the statement is silent on: unknown keys (error or ignored, slip documents :allow-other-keys t), duplicate keys (leftmost or rightmost), whether &rest also holds the keyword arguments (CL) or stops before the first declared keyword (slip) - each is accepted; with &allow-other-keys in the lambda list or a true :allow-other-keys in the call an unknown key must not be an error",
+			"default values in the plain lambda lists are literals; default FORMS are covered by a small family with one signature per kind of form (a call, a quoted symbol, a list, a bare symbol, a call without arguments; &optional, &key, &aux) and by the default-forms dimension of the sixth round",
+			"supplied-p variables and ((:keyword var) default) key specs are not in the statement and slip's defun/lambda refuse them aloud (type-error 'lambda list element ...'): such a refusal is counted, any other treatment is judged by the reference binder",
+			"a sort predicate may be handed the two elements in either order",
 			"Part B: a non-arity error outside the documented range is inconclusive (the type check may precede the count check) and only counted",
 			"Part B: functions with &key are not called with more than the documented pairs (unknown/duplicate keys are allowed by the assumption above)",
+			"Part B keywords: an error that does not name the keyword itself as unacceptable is inconclusive (the value from the type table may not suit the function); an odd keyword tail / an undocumented pair may be rejected or ignored, ignored = the result renders like the one of the call without the tail (skipped when two calls without the tail do not agree)",
 		},
 		Enumerate:     enumerate,
 		Exec:          exec,
@@ -42,6 +55,7 @@ func init() {
 func enumerate(tier string, emit func(string)) {
 	allFuncs()             // snapshot the function tables before any case defines anything
 	enumerateB(tier, emit) // the small part first
+	enumerateK(tier, emit)
 	enumerateA(tier, emit)
 }
 
@@ -53,6 +67,8 @@ func exec(spec string) (res engine.Result) {
 		return execD(spec)
 	case strings.HasPrefix(spec, "B|"):
 		return execB(spec)
+	case strings.HasPrefix(spec, "K|"):
+		return execK(spec)
 	case strings.HasPrefix(spec, "lisp:"): // dev aid
 		val, err := lisp.Eval(spec[5:])
 		if err != nil {
@@ -64,6 +80,16 @@ func exec(spec string) (res engine.Result) {
 		f := strings.Split(spec, ":")
 		n, _ := strconv.Atoi(f[2])
 		res.Outcome = leakProbe(f[1], n)
+	case strings.HasPrefix(spec, "list:"): // dev aid: all specs of the quick tier with this prefix
+		var out []string
+		enumerate(engine.Quick, func(sp string) {
+			if strings.HasPrefix(sp, spec[5:]) {
+				out = append(out, sp)
+			}
+		})
+		res.Outcome = strings.Join(out, "\n")
+	case strings.HasPrefix(spec, "count:"): // dev aid
+		res.Outcome = countFamilies(spec[6:])
 	case spec == "dump:funcs": // dev aid
 		res.Outcome = dumpFuncs()
 	default:
@@ -77,23 +103,52 @@ var required = []string{
 	"A:valid-call", "A:redefined-with-another-lambda-list", "A:too-few", "A:too-many", "A:odd-key-tail", "A:optional-default-used", "A:key-default-used",
 	"A:rest-nonempty", "A:keys-out-of-order", "A:duplicate-key", "A:unknown-key", "A:aux", "A:default-form",
 	"A:keyword-as-positional-value", "A:called-twice-by-a-multi-list-mapcar",
+	// sixth round: routes
+	"A:route-apply-spread-arguments-and-an-empty-list", "A:route-apply-several-spread-arguments", "A:route-apply-of-the-empty-list",
+	"A:route-mv.one", "A:route-mv.all", "A:route-mv.split", "A:route-mapcar1", "A:route-mapc", "A:route-every", "A:route-reduce", "A:route-reduceinit",
+	"A:route-sort", "A:route-fsharp", "A:route-ffunction", "A:route-fsymfn", "A:route-closure", "A:route-generic", "A:route-flavor", "A:route-macro",
+	"A:route-recout", "A:route-recin", "A:nested-activation-with-another-argument-count",
+	// environments
+	"A:environment-call", "A:environment-def", "A:environment-glob",
+	// lambda-list dimensions
+	"A:lambda-list-default-forms", "A:default-form-with-side-effect-evaluated", "A:default-form-with-side-effect-skipped-because-supplied",
+	"A:lambda-list-allow-other-keys", "A:allow-other-keys-argument", "A:unknown-key-that-must-be-allowed",
+	"A:lambda-list-long-names", "A:lambda-list-declared-upper-case", "A:lambda-list-declared-mixed-case", "A:keyword-spelled-with-upper-case",
+	// keywords of the built-ins
+	"K:documented-keyword-call", "K:documented-keyword-accepted", "K:odd-tail-call", "K:undoc-tail-call",
 }
 
 func bound(tier string) string {
 	b := boundsFor(tier)
 	nshapes := len(shapes(b))
-	na, nb := 0, 0
+	na, nb, nk := 0, 0, 0
 	enumerateA(tier, func(string) { na++ })
 	enumerateB(tier, func(string) { nb++ })
+	enumerateK(tier, func(string) { nk++ })
+	var fams []string
+	n6 := 0
+	for _, fam := range families(b) {
+		n := 0
+		fam.each(func(string, *shape, string) { n++ })
+		n6 += n
+		fams = append(fams, fmt.Sprintf("%s: %d shapes x vectors with <= %d pairs x {%s} = %d", fam.name, len(fam.shapes), fam.opts.maxPairs, strings.Join(fam.vias, " "), n))
+	}
+	patt := "every with/without-default pattern"
+	if b.reduced {
+		patt = "one with/without-default pattern per parameter count (forms: two)"
+	}
 	return fmt.Sprintf("Part A: all %d lambda-list shapes with 0-%d required x 0-%d &optional (each with/without default) x &rest x 0-%d &key "+
 		"(each with/without default) x &aux; per shape every positional count 0..required+optional+2 followed by (a) every sequence of <= %d key/value "+
 		"pairs over the declared keys and one unknown key (all orders, duplicates), (b) each such sequence of < %d pairs followed by a lone key, "+
 		"(c) every <= 2-pair sequence containing an unknown key named like the first required / first optional / rest / aux parameter, (d) one positional "+
-		"value replaced by a declared keyword; each through %s (%d calls incl. 24 default-form cases). Part B: %d functions of %d packages x every "+
+		"value replaced by a declared keyword; each through %s (%d calls incl. %d default-form cases and %d calls of the sixth-round families). "+
+		"Sixth-round families (%s; the same vectors without (c); 'spread' = every split 0..n, reduce/sort = the vectors of length 2, mapcar1/mapc/every = length >= 1, "+
+		"@call/@def/@glob = like-named variables around the call, around the definition, global): %s. Part B: %d functions of %d packages x every "+
 		"argument count 0..max+2 allowed or forbidden by FuncDoc.Args (%d calls; %d functions never called, %d only called with counts outside their range, "+
-		"%d with a starred parameter name not judged)",
-		nshapes, b.maxReq, b.maxOpt, b.maxKey, b.maxPairs, b.maxPairs, strings.Join(b.vias, ", "), na,
-		len(allFuncs()), countPackages(), nb, len(skipAlways), len(skipInRange), countVague())
+		"%d with a starred parameter name not judged); keywords: every documented keyword of every built-in with &key alone, without value, and one undocumented pair (%d calls)",
+		nshapes, b.maxReq, b.maxOpt, b.maxKey, b.maxPairs, b.maxPairs, strings.Join(b.vias, ", "), na, len(defaultFormCases), n6,
+		patt, strings.Join(fams, "; "),
+		len(allFuncs()), countPackages(), nb, len(skipAlways), len(skipInRange), countVague(), nk)
 }
 
 func countPackages() int {
@@ -132,7 +187,7 @@ func selftest(tier string) (killed, total int, notes []string) {
 		if len(alive) == 0 {
 			break
 		}
-		argVectors(sh, b, func(as string) {
+		argVectors(sh, vecOpts{maxPairs: b.maxPairs}, func(as string) {
 			if len(alive) == 0 {
 				return
 			}
@@ -155,6 +210,8 @@ func selftest(tier string) (killed, total int, notes []string) {
 	for m := range alive {
 		notes = append(notes, "A: NOT distinguished: "+mutationNames[m])
 	}
+	k6, t6, n6 := selftestRoutes(b, slipLike)
+	killed, total, notes = killed+k6, total+t6, append(notes, n6...)
 	rms := map[rangeMutation]string{
 		rmOptionalIsRequired: "&optional parameters counted as required",
 		rmRestIgnored:        "&rest ignored (finite maximum)",
